@@ -1,6 +1,7 @@
 import CwPlus.Model.Cw20
 import CwPlus.Lemmas.Cw20Draw
 import CwPlus.Lemmas.Cw20Marketing
+import CwPlus.Props.Cw20Mixed
 /-!
 # C02 — cw20: balances move only by the holder or within a valid allowance
 
@@ -767,6 +768,441 @@ theorem moved_le_granted {m : InstMsg} {s0 : State} (h : instantiate m = .ok s0)
   have h2 := drawn_le_granted h ops p
   omega
 
+/-! ## Converse of clause 2: exactly when a draw succeeds -/
+
+/-- The condition on the pre-state under which a draw of `amt` on owner `o` by spender `snd` goes through: the
+owner validates and holds `amt`, and the allowance `(o, snd)` is present, unexpired at `blk` and at least `amt`
+— in the owner-keyed map and in its spender-keyed mirror (the code checks each map on its own value). -/
+def DrawReady (s : State) (blk : Block) (snd : Addr) (o : AddrArg) (amt : Nat) : Prop :=
+  o.valid = true ∧ amt ≤ bal s o.text ∧
+  (∃ al, s.allow.get? (o.text, snd) = some al ∧ al.expires.isExpired blk = false ∧ amt ≤ al.amount) ∧
+  (∃ al2, s.allowSp.get? (snd, o.text) = some al2 ∧ al2.expires.isExpired blk = false ∧ amt ≤ al2.amount)
+
+/-- **C02, clause 2 as an equivalence** (under the C01 invariant `supply = Σ balances ≤ u128`): a
+`TransferFrom` / `SendFrom` / `BurnFrom` on `o` for `amt` by `snd` succeeds **iff** `DrawReady` holds and the
+recipient (if any) validates.  "Only if" is `draw_requires`; "if" says a draw within a valid allowance can
+not be blocked by anything else — the credit cannot overflow and the supply subtraction cannot underflow,
+because balances are part of the supply. -/
+theorem draw_ok_iff {s : State} (hi : C01.Inv s) {blk : Block} {snd : Addr} {msg : Msg} {o : AddrArg} {amt : Nat}
+    (hd : drawOf msg = some (o, amt)) :
+    (∃ r, execute s blk snd msg = .ok r) ↔
+      (DrawReady s blk snd o amt ∧ ∀ r, drawRecipient msg = some r → r.valid = true) := by
+  constructor
+  · rintro ⟨⟨s', out⟩, h⟩
+    refine ⟨draw_requires h hd, ?_⟩
+    intro r hr
+    obtain ⟨_, _, _, _, _, _, _, _, _, _, _, _, _, _, hrest⟩ := draw_inv h hd
+    rcases hrest with ⟨r', hr', hv, _⟩ | ⟨hn, _⟩
+    · rw [hr] at hr'; cases hr'; exact hv
+    · rw [hr] at hn; cases hn
+  · rintro ⟨⟨hv, hbal, ⟨al, e1, e2, e3⟩, ⟨al2, e4, e5, e6⟩⟩, hrec⟩
+    have hded : deduct s blk o.text snd amt = .ok { s with
+        allow := s.allow.set (o.text, snd) ⟨al.amount - amt, al.expires⟩,
+        allowSp := s.allowSp.set (snd, o.text) ⟨al2.amount - amt, al2.expires⟩ } :=
+      deduct_ok.mpr ⟨al, al2, e1, e2, e3, e4, e5, e6, rfl⟩
+    have hdeb : debit s.balances o.text amt = .ok (s.balances.set o.text ((s.balances.get? o.text).getD 0 - amt)) :=
+      debit_ok.mpr ⟨hbal, rfl⟩
+    cases msg <;> simp only [drawOf, Option.some.injEq, Prod.mk.injEq, reduceCtorEq] at hd
+    case transferFrom o' r amt' =>
+      obtain ⟨rfl, rfl⟩ := hd
+      have hr := hrec r rfl
+      obtain ⟨b2, h2⟩ := C01.credit_cannot_overflow_from (r := r.text) hi hded hdeb
+      exact C01.transferFrom_credit_ok hi hr hv hded hdeb
+    case burnFrom o' amt' =>
+      obtain ⟨rfl, rfl⟩ := hd
+      have hb := AMap.get?_le_sum s.balances o'.text
+      have hs : amt' ≤ s.supply := by rw [hi.1]; unfold bal at hbal; omega
+      exact ⟨_, by simp only [execute, execBurnFrom]; simp [hv, hded, hdeb, hs]; rfl⟩
+    case sendFrom o' c amt' p =>
+      obtain ⟨rfl, rfl⟩ := hd
+      have hr := hrec c rfl
+      exact C01.sendFrom_credit_ok hi hr hv hded hdeb
+
+/-- `draw_ok_iff` when the two allowance maps agree (C19's invariant, which holds in every reachable state):
+the mirror conjunct collapses and the condition is the one a user reads off the `Allowance` and `Balance`
+queries. -/
+theorem draw_ok_iff_of_inv19 {s : State} (hi : C01.Inv s) (h19 : Inv19 s) {blk : Block} {snd : Addr} {msg : Msg}
+    {o : AddrArg} {amt : Nat} (hd : drawOf msg = some (o, amt)) :
+    (∃ r, execute s blk snd msg = .ok r) ↔
+      (o.valid = true ∧ amt ≤ bal s o.text ∧
+       (∃ al, s.allow.get? (o.text, snd) = some al ∧ al.expires.isExpired blk = false ∧ amt ≤ al.amount) ∧
+       ∀ r, drawRecipient msg = some r → r.valid = true) := by
+  rw [draw_ok_iff hi hd]
+  constructor
+  · rintro ⟨⟨hv, hb, ha, _⟩, hr⟩; exact ⟨hv, hb, ha, hr⟩
+  · rintro ⟨hv, hb, ⟨al, e1, e2, e3⟩, hr⟩
+    exact ⟨⟨hv, hb, ⟨al, e1, e2, e3⟩, ⟨al, by rw [← h19]; exact e1, e2, e3⟩⟩, hr⟩
+
+/-- **A valid draw cannot be blocked**, on reachable states: after any accepted instantiation and any history,
+a `*From` call succeeds iff the owner validates and holds the amount, the spender's allowance is present,
+unexpired and sufficient, and the recipient validates. -/
+theorem draw_ok_iff_reach {m : InstMsg} {s0 : State} (h : instantiate m = .ok s0) (ops : List (Block × Addr × Msg))
+    {blk : Block} {snd : Addr} {msg : Msg} {o : AddrArg} {amt : Nat} (hd : drawOf msg = some (o, amt)) :
+    (∃ r, execute (C01.run s0 ops) blk snd msg = .ok r) ↔
+      (o.valid = true ∧ amt ≤ bal (C01.run s0 ops) o.text ∧
+       (∃ al, (C01.run s0 ops).allow.get? (o.text, snd) = some al ∧ al.expires.isExpired blk = false
+          ∧ amt ≤ al.amount) ∧
+       ∀ r, drawRecipient msg = some r → r.valid = true) :=
+  draw_ok_iff_of_inv19 (C01.reach_inv h ops) (C19.reach_inv19 h ops).1 hd
+
+/-! ## Clause 1 over histories: a holder who never signs and never grants never loses -/
+
+/-- One successful call keeps "owner `a` has granted nothing" (no entry `(a, ·)` in `ALLOWANCES`), unless it is
+`a`'s own `IncreaseAllowance`: a `DecreaseAllowance` needs an existing entry, and so does a draw. -/
+theorem no_grant_preserved {s s' : State} {blk : Block} {snd : Addr} {msg : Msg} {out : List Out} {a : Addr}
+    (h : execute s blk snd msg = .ok (s', out)) (hnone : ∀ sp, s.allow.get? (a, sp) = none)
+    (hq : snd = a → grantOf msg = none) : ∀ sp, s'.allow.get? (a, sp) = none := by
+  intro sp
+  by_cases hne : s'.allow.get? (a, sp) = s.allow.get? (a, sp)
+  · rw [hne]; exact hnone sp
+  · rcases allowance_frame h hne with ⟨hs, spArg, he, hsp⟩ | ⟨hs, oArg, amt, hd, ho⟩
+    · have hg := hq hs
+      cases msg <;> simp only [allowanceEditOf, grantOf, reduceCtorEq, Option.some.injEq] at he hg
+      case decreaseAllowance sp' amt e =>
+        subst he
+        obtain ⟨_, _, old, hold, _⟩ := execDecreaseAllowance_inv h
+        rw [hs, hsp, hnone sp] at hold; cases hold
+    · obtain ⟨_, al, _, _, e1, _⟩ := draw_inv h hd
+      rw [ho, hs, hnone sp] at e1; cases e1
+
+/-- One successful call cannot lower the balance of a holder who has granted nothing, unless the holder itself
+sent a `Transfer` / `Send` / `Burn`. -/
+theorem no_grant_no_loss_step {s s' : State} {blk : Block} {snd : Addr} {msg : Msg} {out : List Out} {a : Addr}
+    (h : execute s blk snd msg = .ok (s', out)) (hnone : ∀ sp, s.allow.get? (a, sp) = none)
+    (hq : snd = a → isHolderMove msg = false) : bal s a ≤ bal s' a := by
+  by_cases hlt : bal s' a < bal s a
+  · rcases debit_authorised h hlt with ⟨hs, hm⟩ | ⟨o, amt, al, _, _, e1, _⟩
+    · rw [hq hs] at hm; cases hm
+    · rw [hnone snd] at e1; cases e1
+  · omega
+
+/-- **C02, clause 1 over histories (passive holder)**: from any state in which `a` has no outstanding
+allowance to anybody, over every history in which `a` itself sends no `Transfer` / `Send` / `Burn` and no
+`IncreaseAllowance` — whatever everybody else does, in any order, at any block — the balance of `a` never
+drops (it can only grow by transfers and mints to it), at the end and at every point in between (every prefix
+of the history is such a history), and `a` still has granted nothing. -/
+theorem passive_holder_never_loses_from {s : State} (a : Addr) (hnone : ∀ sp, s.allow.get? (a, sp) = none)
+    (ops : List (Block × Addr × Msg))
+    (hq : ∀ op ∈ ops, op.2.1 = a → isHolderMove op.2.2 = false ∧ grantOf op.2.2 = none) :
+    bal s a ≤ bal (run s ops) a ∧ ∀ sp, (run s ops).allow.get? (a, sp) = none := by
+  induction ops generalizing s with
+  | nil => exact ⟨Nat.le_refl _, hnone⟩
+  | cons op rest ih =>
+    obtain ⟨blk, snd, msg⟩ := op
+    have hq0 := hq (blk, snd, msg) (by simp)
+    have hstep : bal s a ≤ bal (step s blk snd msg) a ∧ ∀ sp, (step s blk snd msg).allow.get? (a, sp) = none := by
+      unfold step
+      cases hx : execute s blk snd msg with
+      | error e => exact ⟨Nat.le_refl _, hnone⟩
+      | ok r =>
+        obtain ⟨s', out⟩ := r
+        exact ⟨no_grant_no_loss_step hx hnone (fun e => (hq0 e).1),
+          no_grant_preserved hx hnone (fun e => (hq0 e).2)⟩
+    obtain ⟨h1, h2⟩ := ih hstep.2 (fun op hop => hq op (List.mem_cons_of_mem _ hop))
+    exact ⟨Nat.le_trans hstep.1 h1, h2⟩
+
+/-- **C02, clause 1 over histories, from instantiation**: after any accepted instantiation, a holder who never
+signs a `Transfer` / `Send` / `Burn` and never grants an allowance never loses a token, over any history of
+calls by anybody else. -/
+theorem passive_holder_never_loses {m : InstMsg} {s0 : State} (h : instantiate m = .ok s0)
+    (ops : List (Block × Addr × Msg)) (a : Addr)
+    (hq : ∀ op ∈ ops, op.2.1 = a → isHolderMove op.2.2 = false ∧ grantOf op.2.2 = none) :
+    bal s0 a ≤ bal (run s0 ops) a := by
+  have hnone : ∀ sp, s0.allow.get? (a, sp) = none := by
+    simp [instantiate] at h
+    obtain ⟨_, _, b, t, _, _, w, _, mk, lg, _, rfl⟩ := h
+    intro sp; rfl
+  exact (passive_holder_never_loses_from a hnone ops hq).1
+
+/-! ## Per-owner ledger: where an owner's tokens went, over any history
+
+For an account `a`, every token that leaves its balance in a history is booked either as sent by `a` itself
+(`Transfer` / `Send` / `Burn` signed by `a`) or as drawn through an allowance `a` granted; nothing else ever
+lowers the balance (`owner_ledger`).  The drawn part is bounded by what `a` cumulatively granted
+(`owner_drawn_le_granted`).  Ghost sums over the history, computed from the run itself. -/
+
+/-- Tokens account `a` loses / gains in one transaction (0 for a failing, rolled-back call). -/
+def lossAt (s : State) (op : Block × Addr × Msg) (a : Addr) : Nat := bal s a - bal (step s op.1 op.2.1 op.2.2) a
+def gainAt (s : State) (op : Block × Addr × Msg) (a : Addr) : Nat := bal (step s op.1 op.2.1 op.2.2) a - bal s a
+
+/-- The call is a `*From` on owner `a`. -/
+def isDrawOn (msg : Msg) (a : Addr) : Bool :=
+  match drawOf msg with
+  | some (o, _) => decide (o.text = a)
+  | none => false
+
+/-- The part of `a`'s loss in this transaction that `a` signed itself (`Transfer`/`Send`/`Burn` by `a`). -/
+def ownAt (s : State) (op : Block × Addr × Msg) (a : Addr) : Nat :=
+  if op.2.1 = a ∧ isHolderMove op.2.2 = true then lossAt s op a else 0
+
+/-- The part of `a`'s loss in this transaction that a spender drew through an allowance. -/
+def drawnAt (s : State) (op : Block × Addr × Msg) (a : Addr) : Nat :=
+  if isDrawOn op.2.2 a = true then lossAt s op a else 0
+
+/-- What `a` grants in this transaction: the amount of a successful `IncreaseAllowance` signed by `a`. -/
+def grantAt (s : State) (op : Block × Addr × Msg) (a : Addr) : Nat :=
+  match grantOf op.2.2 with
+  | some (_, amt) => if op.2.1 = a ∧ (execute s op.1 op.2.1 op.2.2).isOk = true then amt else 0
+  | none => 0
+
+/-- Sum of a per-transaction quantity along the run of a history from `s`. -/
+def sumOver (f : State → Block × Addr × Msg → Nat) (s : State) : List (Block × Addr × Msg) → Nat
+  | [] => 0
+  | op :: rest => f s op + sumOver f (step s op.1 op.2.1 op.2.2) rest
+
+/-- Tokens `a` itself sent away (or burned) over the history. -/
+def sentOwn (s : State) (ops : List (Block × Addr × Msg)) (a : Addr) : Nat := sumOver (fun s op => ownAt s op a) s ops
+/-- Tokens spenders drew from `a` over the history. -/
+def drawnFrom (s : State) (ops : List (Block × Addr × Msg)) (a : Addr) : Nat := sumOver (fun s op => drawnAt s op a) s ops
+/-- Tokens `a` received over the history (transfers, sends, mints to it). -/
+def received (s : State) (ops : List (Block × Addr × Msg)) (a : Addr) : Nat := sumOver (fun s op => gainAt s op a) s ops
+/-- Everything `a` granted over the history (to all spenders together). -/
+def grantedBy (s : State) (ops : List (Block × Addr × Msg)) (a : Addr) : Nat := sumOver (fun s op => grantAt s op a) s ops
+
+/-- One transaction: whatever `a` loses is either signed by `a` or drawn through an allowance of `a`. -/
+theorem step_owner_ledger (s : State) (op : Block × Addr × Msg) (a : Addr) :
+    bal (step s op.1 op.2.1 op.2.2) a + ownAt s op a + drawnAt s op a = bal s a + gainAt s op a := by
+  obtain ⟨blk, snd, msg⟩ := op
+  simp only [ownAt, drawnAt, gainAt, lossAt]
+  by_cases hlt : bal (step s blk snd msg) a < bal s a
+  · cases hx : execute s blk snd msg with
+    | error e => simp [step, hx] at hlt
+    | ok r =>
+      obtain ⟨s', out⟩ := r
+      have hs : step s blk snd msg = s' := by simp [step, hx]
+      rw [hs] at hlt ⊢
+      rcases debit_authorised hx hlt with ⟨h1, h2⟩ | ⟨o, amt, al, hd, ho, _⟩
+      · have hnd : isDrawOn msg a = false := by
+          cases msg <;> simp [isHolderMove] at h2 <;> simp [isDrawOn, drawOf]
+        simp [h1, h2, hnd]; omega
+      · have hnh : isHolderMove msg = false := by cases msg <;> simp [drawOf] at hd <;> rfl
+        have hdo : isDrawOn msg a = true := by simp [isDrawOn, hd, ho]
+        simp [hnh, hdo]; omega
+  · have h0 : bal s a - bal (step s blk snd msg) a = 0 := by omega
+    simp only [h0, ite_self]
+    omega
+
+/-- **C02, per-owner ledger**: over any history from any state, for every account `a`:
+`balance + sent by a itself + drawn through a's allowances = initial balance + received`.  So a balance is
+lowered by nothing but the holder's own moves and spenders' draws — over whole histories, with exact amounts. -/
+theorem owner_ledger (s : State) (ops : List (Block × Addr × Msg)) (a : Addr) :
+    bal (run s ops) a + sentOwn s ops a + drawnFrom s ops a = bal s a + received s ops a := by
+  induction ops generalizing s with
+  | nil => rfl
+  | cons op rest ih =>
+    have h1 := step_owner_ledger s op a
+    have h2 := ih (step s op.1 op.2.1 op.2.2)
+    show bal (run (step s op.1 op.2.1 op.2.2) rest) a
+        + (ownAt s op a + sentOwn (step s op.1 op.2.1 op.2.2) rest a)
+        + (drawnAt s op a + drawnFrom (step s op.1 op.2.1 op.2.2) rest a)
+      = bal s a + (gainAt s op a + received (step s op.1 op.2.1 op.2.2) rest a)
+    omega
+
+/-- The amount a draw on owner `a` names (0 for any other call). -/
+def drawAmtOn (msg : Msg) (a : Addr) : Nat :=
+  match drawOf msg with
+  | some (o, amt) => if o.text = a then amt else 0
+  | none => 0
+
+/-- The amount an `IncreaseAllowance` by `a` names (0 for any other call or sender). -/
+def grantAmtBy (snd : Addr) (msg : Msg) (a : Addr) : Nat :=
+  match grantOf msg with
+  | some (_, amt) => if snd = a then amt else 0
+  | none => 0
+
+/-- Per call, for the sum of all allowances granted by `a`: what is left plus what is drawn from `a` is at most
+what was there plus what `a` grants (equality except for `DecreaseAllowance`). -/
+theorem ownerSum_step {s s' : State} {blk : Block} {snd : Addr} {msg : Msg} {out : List Out}
+    (h : execute s blk snd msg = .ok (s', out)) (a : Addr) :
+    ownerSum s'.allow a + drawAmtOn msg a ≤ ownerSum s.allow a + grantAmtBy snd msg a := by
+  cases hd : drawOf msg with
+  | some x =>
+    obtain ⟨o, amt⟩ := x
+    have hg : grantOf msg = none := by cases msg <;> simp [drawOf] at hd <;> rfl
+    obtain ⟨_, al, al2, b1, e1, _, e3, _, _, _, e7, _⟩ := draw_inv h hd
+    have hs := ownerSum_set s.allow o.text snd ⟨al.amount - amt, al.expires⟩ a
+    rw [e1] at hs
+    simp only [drawAmtOn, grantAmtBy, hd, hg, e7]
+    by_cases e : o.text = a
+    · simp only [e, if_true, Option.getD_some] at hs ⊢; omega
+    · simp only [e, if_false] at hs ⊢; omega
+  | none =>
+    cases msg <;> simp only [drawOf, reduceCtorEq] at hd <;> simp only [execute] at h <;>
+      simp only [drawAmtOn, grantAmtBy, drawOf, grantOf]
+    case transfer to amt =>
+      obtain ⟨_, b1, b2, _, _, rfl, _⟩ := execTransfer_inv h; simp
+    case send c amt p' =>
+      obtain ⟨_, b1, b2, _, _, rfl, _⟩ := execSend_inv h; simp
+    case burn amt =>
+      obtain ⟨b1, _, _, rfl, _⟩ := execBurn_inv h; simp
+    case mint to amt =>
+      obtain ⟨b, _, _, e1, _⟩ := execMint_inv h; rw [e1]; simp
+    case updateMinter new =>
+      obtain ⟨_, _, e1, _⟩ := execUpdateMinter_inv h; rw [e1]; simp
+    case increaseAllowance spArg amt e =>
+      obtain ⟨_, _, _, _, _, rfl, _⟩ := execIncreaseAllowance_inv h
+      have hs := ownerSum_set s.allow snd spArg.text
+        ⟨((s.allow.get? (snd, spArg.text)).getD Allowance.default).amount + amt,
+          e.getD ((s.allow.get? (snd, spArg.text)).getD Allowance.default).expires⟩ a
+      by_cases e' : snd = a
+      · simp only [e', if_true] at hs ⊢; omega
+      · simp only [e', if_false] at hs ⊢; omega
+    case decreaseAllowance spArg amt e =>
+      obtain ⟨_, _, old, hold, _, hc⟩ := execDecreaseAllowance_inv h
+      rcases hc with ⟨_, _, rfl⟩ | ⟨_, rfl⟩
+      · have hs := ownerSum_set s.allow snd spArg.text ⟨old.amount - amt, e.getD old.expires⟩ a
+        rw [hold] at hs
+        by_cases e' : snd = a
+        · simp only [e', if_true, Option.getD_some] at hs ⊢; omega
+        · simp only [e', if_false] at hs ⊢; omega
+      · have := ownerSum_erase_le s.allow (snd, spArg.text) a
+        simpa using this
+    case updateMarketing p' d m =>
+      obtain ⟨mk, rfl, _⟩ := execUpdateMarketing_frame h; simp
+    case uploadLogo l =>
+      obtain ⟨mk, rfl, _⟩ := execUploadLogo_frame h; simp
+
+/-- One transaction (committed or rolled back), in the ghost quantities. -/
+theorem step_owner_grants (s : State) (op : Block × Addr × Msg) (a : Addr) :
+    drawnAt s op a + ownerSum (step s op.1 op.2.1 op.2.2).allow a ≤ ownerSum s.allow a + grantAt s op a := by
+  obtain ⟨blk, snd, msg⟩ := op
+  cases hx : execute s blk snd msg with
+  | error e =>
+    have hs : step s blk snd msg = s := by simp [step, hx]
+    simp only [drawnAt, lossAt, hs]
+    split <;> omega
+  | ok r =>
+    obtain ⟨s', out⟩ := r
+    have hs : step s blk snd msg = s' := by simp [step, hx]
+    have h1 := ownerSum_step hx a
+    have h2 : drawnAt s (blk, snd, msg) a ≤ drawAmtOn msg a := by
+      simp only [drawnAt, lossAt, hs, isDrawOn, drawAmtOn]
+      cases hd : drawOf msg with
+      | none => simp
+      | some x =>
+        obtain ⟨o, amt⟩ := x
+        have := (draw_bal hx hd a).2
+        by_cases e : o.text = a
+        · simp [e]; omega
+        · simp [e]
+    have h3 : grantAt s (blk, snd, msg) a = grantAmtBy snd msg a := by
+      simp only [grantAt, grantAmtBy, hx, Res.isOk]
+      cases grantOf msg with
+      | none => rfl
+      | some x => simp
+    rw [hs]; omega
+
+/-- Over any history from any state: what was drawn from `a` plus the allowances `a` still has outstanding is
+at most the allowances outstanding at the start plus everything `a` granted meanwhile. -/
+theorem owner_drawn_le_granted_from (s : State) (ops : List (Block × Addr × Msg)) (a : Addr) :
+    drawnFrom s ops a + ownerSum (run s ops).allow a ≤ ownerSum s.allow a + grantedBy s ops a := by
+  induction ops generalizing s with
+  | nil => show 0 + ownerSum s.allow a ≤ ownerSum s.allow a + 0; omega
+  | cons op rest ih =>
+    have h1 := step_owner_grants s op a
+    have h2 := ih (step s op.1 op.2.1 op.2.2)
+    show (drawnAt s op a + drawnFrom (step s op.1 op.2.1 op.2.2) rest a)
+        + ownerSum (run (step s op.1 op.2.1 op.2.2) rest).allow a
+      ≤ ownerSum s.allow a + (grantAt s op a + grantedBy (step s op.1 op.2.1 op.2.2) rest a)
+    omega
+
+/-- **C02, an owner's total exposure**: after any accepted instantiation and any history, for every account
+`a`: the tokens spenders drew from `a` (all spenders together) plus all allowances `a` still has outstanding
+never exceed what `a` granted in total; hence what `a` had or received is still in its balance except for what
+`a` sent itself and at most what `a` granted. -/
+theorem owner_drawn_le_granted {m : InstMsg} {s0 : State} (h : instantiate m = .ok s0)
+    (ops : List (Block × Addr × Msg)) (a : Addr) :
+    drawnFrom s0 ops a + ownerSum (run s0 ops).allow a ≤ grantedBy s0 ops a
+    ∧ bal s0 a + received s0 ops a ≤ bal (run s0 ops) a + sentOwn s0 ops a + grantedBy s0 ops a := by
+  have h0 : ownerSum s0.allow a = 0 := by
+    simp [instantiate] at h
+    obtain ⟨_, _, b, t, _, _, w, _, mk, lg, _, rfl⟩ := h
+    rfl
+  have h1 := owner_drawn_le_granted_from s0 ops a
+  have h2 := owner_ledger s0 ops a
+  constructor <;> omega
+
+/-! ## Histories that contain migrations -/
+
+open CwPlus.Props.C19 (Op stepOp runOps) in
+/-- One transaction of a mixed history on the ghost state: `migrate` books nothing (it moves no token and
+touches no owner-keyed allowance). -/
+def gstepOp (g : G) : Op → G
+  | .exec blk snd msg => gstep g blk snd msg
+  | .migrate => { g with s := stepOp g.s .migrate }
+
+open CwPlus.Props.C19 (Op stepOp runOps) in
+def grunOps (g : G) (ops : List Op) : G := ops.foldl gstepOp g
+
+open CwPlus.Props.C19 (Op stepOp runOps) in
+/-- The ghost ledgers do not influence the contract over mixed histories either. -/
+theorem grunOps_state (g : G) (ops : List Op) : (grunOps g ops).s = runOps g.s ops := by
+  induction ops generalizing g with
+  | nil => rfl
+  | cons op rest ih =>
+    simp only [grunOps, runOps, List.foldl_cons] at ih ⊢
+    rw [ih]
+    cases op with
+    | exec blk snd msg => simp only [gstepOp, gstep_state]; rfl
+    | migrate => rfl
+
+open CwPlus.Props.C19 (Op stepOp runOps) in
+theorem gstepOp_inv {g : G} (op : Op) (hi : GInv g) : GInv (gstepOp g op) := by
+  cases op with
+  | exec blk snd msg => exact gstep_inv blk snd msg hi
+  | migrate =>
+    intro p
+    have := hi p
+    have ha : (stepOp g.s .migrate).allow = g.s.allow := (Cw20Mixed.stepOp_migrate_frame g.s).2.2.2
+    simp only [gstepOp, allowance, ha]
+    exact this
+
+open CwPlus.Props.C19 (Op stepOp runOps) in
+theorem grunOps_inv {g : G} (ops : List Op) (hi : GInv g) : GInv (grunOps g ops) := by
+  induction ops generalizing g with
+  | nil => exact hi
+  | cons op rest ih => exact ih (gstepOp_inv op hi)
+
+open CwPlus.Props.C19 (Op stepOp runOps) in
+/-- **C02, cumulative bound over histories with migrations**: after any accepted instantiation and any history
+of execute and `migrate` calls in any order, for every pair: drawn + remaining allowance ≤ granted, and the
+tokens that actually left the owner through the spender's draws ≤ granted. -/
+theorem cumulative_bound_mixed {m : InstMsg} {s0 : State} (h : instantiate m = .ok s0) (ops : List Op)
+    (p : Addr × Addr) :
+    tot (grunOps (ginit s0) ops).drawn p + (allowance (runOps s0 ops) p).amount ≤ tot (grunOps (ginit s0) ops).granted p
+    ∧ tot (grunOps (ginit s0) ops).moved p ≤ tot (grunOps (ginit s0) ops).granted p := by
+  have hg := grunOps_inv ops (ginit_inv h) p
+  rw [grunOps_state] at hg
+  exact ⟨hg.1, by have := hg.1; have := hg.2; omega⟩
+
+open CwPlus.Props.C19 (Op stepOp runOps) in
+/-- The passive-holder theorem over histories with migrations: a `migrate` moves no token and creates no
+owner-keyed allowance. -/
+theorem passive_holder_never_loses_mixed {s : State} (a : Addr) (hnone : ∀ sp, s.allow.get? (a, sp) = none)
+    (ops : List Op)
+    (hq : ∀ blk snd msg, Op.exec blk snd msg ∈ ops → snd = a → isHolderMove msg = false ∧ grantOf msg = none) :
+    bal s a ≤ bal (runOps s ops) a ∧ ∀ sp, (runOps s ops).allow.get? (a, sp) = none := by
+  induction ops generalizing s with
+  | nil => exact ⟨Nat.le_refl _, hnone⟩
+  | cons op rest ih =>
+    have hstep : bal s a ≤ bal (stepOp s op) a ∧ ∀ sp, (stepOp s op).allow.get? (a, sp) = none := by
+      cases op with
+      | exec blk snd msg =>
+        have hq0 := hq blk snd msg (by simp)
+        show bal s a ≤ bal (step s blk snd msg) a ∧ ∀ sp, (step s blk snd msg).allow.get? (a, sp) = none
+        unfold step
+        cases hx : execute s blk snd msg with
+        | error e => exact ⟨Nat.le_refl _, hnone⟩
+        | ok r =>
+          obtain ⟨s', out⟩ := r
+          exact ⟨no_grant_no_loss_step hx hnone (fun e => (hq0 e).1),
+            no_grant_preserved hx hnone (fun e => (hq0 e).2)⟩
+      | migrate =>
+        obtain ⟨hb, _, _, ha⟩ := Cw20Mixed.stepOp_migrate_frame s
+        exact ⟨by simp only [bal_def, hb]; exact Nat.le_refl _, by rw [ha]; exact hnone⟩
+    obtain ⟨h1, h2⟩ := ih hstep.2 (fun blk snd msg hop => hq blk snd msg (List.mem_cons_of_mem _ hop))
+    exact ⟨Nat.le_trans hstep.1 h1, h2⟩
+
 /-! ## The hypotheses are satisfiable: a concrete history (evaluated by the kernel)
 
 `alice` holds 100, `carol` 7.  At height 10 alice grants bob 50 until height 20; bob moves 30 of alice's
@@ -854,5 +1290,56 @@ theorem decrease_ignores_expiry_on_removal :
     (execute Ex.s2 Ex.late "alice" (.decreaseAllowance Ex.bob 20 (some Ex.until20))).isOk = true ∧
     (step Ex.s2 Ex.late "alice" (.decreaseAllowance Ex.bob 20 (some Ex.until20))).allow.get? ("alice", "bob") = none := by
   decide
+
+
+/-! ### Non-vacuity of the added theorems (on the example token of `Ex`) -/
+theorem ex_s1_inv : C01.Inv Ex.s1 := ⟨by decide, by decide⟩
+
+namespace Ex2
+open Ex
+
+/-- `draw_ok_iff`: with 50 granted until height 20, bob's `TransferFrom 30` at height 10 is ready, hence succeeds
+— and at height 20 (expired) or for 51 it is not. -/
+example : ∃ r, execute s1 blk "bob" (.transferFrom alice carol 30) = .ok r :=
+  (draw_ok_iff ex_s1_inv (msg := .transferFrom alice carol 30) rfl).mpr
+    ⟨⟨rfl, by decide, ⟨_, rfl, by decide, by decide⟩, ⟨_, rfl, by decide, by decide⟩⟩,
+     by intro r hr; cases hr; rfl⟩
+example : ¬ ∃ r, execute s1 late "bob" (.burnFrom alice 30) = .ok r := by
+  intro h
+  obtain ⟨⟨_, _, ⟨al, e1, e2, _⟩, _⟩, _⟩ := (draw_ok_iff ex_s1_inv (msg := .burnFrom alice 30) rfl).mp h
+  cases e1; revert e2; decide
+example : DrawReady s1 blk "bob" alice 50 ∧ ¬ DrawReady s1 blk "bob" alice 51 := by
+  refine ⟨⟨rfl, by decide, ⟨_, rfl, by decide, by decide⟩, ⟨_, rfl, by decide, by decide⟩⟩, ?_⟩
+  rintro ⟨_, _, ⟨al, e1, _, e3⟩, _⟩
+  cases e1; revert e3; decide
+
+/-- `passive_holder_never_loses`: in both race histories carol never signs anything; her balance only grows. -/
+example : bal s0 "carol" ≤ bal (run s0 race1) "carol" :=
+  passive_holder_never_loses (m := im) rfl race1 "carol" (by decide)
+example : bal s0 "carol" = 7 ∧ bal (run s0 race1) "carol" = 37 := by decide
+/-- alice does sign (she grants): the hypothesis fails for her, and she does lose tokens. -/
+example : bal (run s0 race1) "alice" < bal s0 "alice" := by decide
+
+/-- `owner_ledger` / `owner_drawn_le_granted` on race 2: alice granted 50, bob drew 50 of her tokens, she sent
+nothing herself and received nothing: 50 + 0 + 50 = 100 + 0. -/
+example : sentOwn s0 race2 "alice" = 0 ∧ drawnFrom s0 race2 "alice" = 50 ∧ received s0 race2 "alice" = 0
+    ∧ grantedBy s0 race2 "alice" = 50 ∧ received s0 race2 "carol" = 50 := by decide
+example : bal (run s0 race2) "alice" + sentOwn s0 race2 "alice" + drawnFrom s0 race2 "alice"
+    = bal s0 "alice" + received s0 race2 "alice" := owner_ledger s0 race2 "alice"
+example : drawnFrom s0 race2 "alice" + ownerSum (run s0 race2).allow "alice" ≤ grantedBy s0 race2 "alice" :=
+  (owner_drawn_le_granted (m := im) rfl race2 "alice").1
+
+/-- A mixed history: grant, migrate, draw, migrate; the cumulative bound holds (`cumulative_bound_mixed`). -/
+def mixed : List C19.Op :=
+  [.exec blk "alice" (.increaseAllowance bob 50 (some until20)), .migrate,
+   .exec blk "bob" (.transferFrom alice carol 30), .migrate]
+example : tot (grunOps (ginit s0) mixed).drawn ("alice", "bob") = 30
+    ∧ tot (grunOps (ginit s0) mixed).granted ("alice", "bob") = 50
+    ∧ (allowance (C19.runOps s0 mixed) ("alice", "bob")).amount = 20 := by decide
+example : tot (grunOps (ginit s0) mixed).drawn ("alice", "bob") + (allowance (C19.runOps s0 mixed) ("alice", "bob")).amount
+    ≤ tot (grunOps (ginit s0) mixed).granted ("alice", "bob") :=
+  (cumulative_bound_mixed (m := im) rfl mixed ("alice", "bob")).1
+
+end Ex2
 
 end CwPlus.Props.C02
